@@ -266,3 +266,64 @@ def units(ctx, r):
                              f"{f['name']} reports an error with a span built from raw positions ({', '.join(q.show(fl['e']) for fl in sp.get('fields', []))}): those count chars (and may be relative to a string literal), diagnostics read bytes from the start of the file",
                              sample=f"{f['name']}: error span converted to file byte offsets")
     r.count("error spans created in the lexer", n_direct, 2, LEX)
+    # an error that carries a bare position instead of a span: the position is the cursor converted to bytes, never the cursor itself
+    usz = {fl["name"] for fl in st["fields"] if fl["ty"].strip() == "usize"}
+    n_pos = 0
+    for f, _ in q.iter_items(lex):
+        if f["k"] != "Fn" or f.get("body") is None:
+            continue
+        conv_locals = {b for l in q.walk(f["body"]) if l["k"] == "Local" and l.get("init") is not None and any(y["k"] == "MethodCall" and y["m"] == "byte_offset" for y in q.walk(l["init"])) for b in q.pat_bindings(l["pat"])}
+        raw_locals = {b for l in q.walk(f["body"]) if l["k"] == "Local" and l.get("init") is not None and l["init"]["k"] == "Field" and l["init"]["f"] in usz for b in q.pat_bindings(l["pat"])}
+        for x in q.walk(f["body"]):
+            if not (x["k"] == "MethodCall" and x["m"] == "push" and q.show(x["recv"]).endswith(".errors") and x["args"]):
+                continue
+            e = x["args"][0]
+            while e["k"] == "MethodCall" and e["m"] in ("into", "clone"):
+                e = e["recv"]
+            if e["k"] != "Call":
+                continue
+            for a in e["args"]:
+                if a["k"] == "Struct":
+                    continue  # spans: the clause above
+                raw = [y for y in q.walk(a) if y["k"] == "Field" and y["f"] in usz and not any(c["k"] == "MethodCall" and c["m"] == "byte_offset" and any(z is y for z in q.walk(c)) for c in q.walk(a))]
+                if a["k"] == "Path" and a["p"] in raw_locals:
+                    raw = [a]
+                is_pos = bool(raw) or (a["k"] == "Path" and a["p"] in conv_locals)
+                if not is_pos:
+                    continue
+                n_pos += 1
+                r.ob(not raw, f"lexer.rs:{f['name']}:{q.last_seg(q.show(e['f']))}:error-position-in-chars", LEX, x["l"],
+                     f"{f['name']} reports {q.last_seg(q.show(e['f']))} at `{q.show(a)}`, the lexer's cursor, which counts chars; the renderer uses it as a byte offset, so after non-ASCII text the diagnostic points at earlier, unrelated source",
+                     sample=f"{f['name']}: {q.last_seg(q.show(e['f']))} at a byte offset")
+    r.count("bare error positions created in the lexer", n_pos, 1, LEX)
+    # a position handed to such a function as the base of its error spans is a byte offset at every call site
+    n_base = 0
+    lex_fns = [f for f, _ in q.iter_items(lex) if f["k"] == "Fn" and f.get("body") is not None]
+    for f in lex_fns:
+        usz = [b for p_ in f["params"] if not p_.get("self") and p_.get("ty", "").strip() == "usize" for b in q.pat_bindings(p_["pat"])]
+        if not usz:
+            continue
+        # parameters that flow into a byte-converting helper of the function (a closure with len_utf8) or straight into an error span
+        based = set()
+        for l in q.walk(f["body"]):
+            if l["k"] == "Local" and l.get("init") is not None and l["init"]["k"] == "Closure" and any(y["k"] == "MethodCall" and y["m"] == "len_utf8" for y in q.walk(l["init"])):
+                based |= set(usz) & q.idents_in(l["init"])
+        if not based or not any(x["k"] == "MethodCall" and x["m"] == "push" and q.show(x["recv"]).endswith(".errors") for x in q.walk(f["body"])):
+            continue
+        pnames = [b for p_ in f["params"] if not p_.get("self") for b in q.pat_bindings(p_["pat"])[:1]]
+        for g in lex_fns:
+            for c in q.walk(g["body"]):
+                if c["k"] == "Call" and c["f"]["k"] == "Path" and q.last_seg(c["f"]["p"]) == f["name"]:
+                    for bp in sorted(based):
+                        i_ = pnames.index(bp)
+                        if i_ >= len(c["args"]):
+                            continue
+                        n_base += 1
+                        a = c["args"][i_]
+                        conv = any(y["k"] == "MethodCall" and y["m"] == "byte_offset" for y in q.walk(a))
+                        if not conv and a["k"] == "Path":
+                            conv = any(l["k"] == "Local" and l.get("init") is not None and a["p"] in q.pat_bindings(l["pat"]) and any(y["k"] == "MethodCall" and y["m"] == "byte_offset" for y in q.walk(l["init"])) for l in q.walk(g["body"]))
+                        r.ob(conv, f"lexer.rs:{g['name']}:{f['name']}:{bp}:char-position-as-byte-base", LEX, c["l"],
+                             f"{g['name']} calls {f['name']} with `{q.show(a)}` as `{bp}`; {f['name']} adds byte lengths to it and reports errors there, so it must be a byte offset of the file (`byte_offset(..)`): a char position is too small by the bytes-minus-chars of all earlier non-ASCII text, and the escape-sequence diagnostic lands on unrelated source, possibly inside a multi-byte character",
+                             sample=f"{g['name']}: {f['name']}(.., {bp} = byte offset)")
+    r.count("byte-offset bases handed to error-reporting helpers", n_base, 2, LEX)
